@@ -336,7 +336,41 @@ def apply_op(sim, nseg, oi):
         return "exc", f"{type(exc).__name__}: {exc} (in {where})"
 
 
+LIVE_VIEWS = ["variables", "fluxes", "get_right_hand_side[norm=None,cat]", "get_producers(y,scaled)[norm=None,cat]", "get_args(all)[norm=None,split]"]
+
+
+def check_live(case):
+    """A live Simulator: after every segment its result is fetched and one view is read, then the simulation goes on.
+    Every result must cover all segments so far - also when an earlier result has been looked at."""
+    from mxlpy import Simulator
+
+    from mc.spec import build
+
+    set_variant(case["variant"])
+    sim = Simulator(build(make_spec(SEG_PARAMS[0])))
+    t = 0.0
+    txt = f"{case}"
+    for seg, vname in enumerate(case["views"], start=1):
+        if seg > 1:
+            sim.update_parameters(SEG_PARAMS[seg - 1])
+        t += 1.0
+        sim.simulate(t, steps=3)
+        res = sim.get_result().unwrap_or_err()
+        view = VIEWS[OPS.index(vname)]
+        try:
+            obj = view[1](res, seg)
+        except Exception as exc:  # noqa: BLE001
+            return outcome(False, "view-raised", symptom=f"live:exception:{type(exc).__name__}", nontrivial=True,
+                           detail=f"after segment {seg}: reading {vname} raised {type(exc).__name__}: {str(exc)[:200]} | {txt}")
+        bad = check_view(view, obj, seg)
+        if bad is not None:
+            return outcome(False, bad[0], symptom=f"live:{bad[0]}:{vname.split('[')[0]}", nontrivial=True, detail=f"after segment {seg}: {bad[1]} | {txt}")
+    return outcome(True, "live-views-equal", nontrivial=True)
+
+
 def check(case):
+    if case.get("family") == "live":
+        return check_live(case)
     nseg, hist, oi = case["nseg"], case["hist"], case["op"]
     set_variant(case.get("variant", "rich"))
     sim = fresh_simulation(nseg)
@@ -383,6 +417,8 @@ def _per_row_norm(case):
 
 
 def describe(case):
+    if case.get("family") == "live":
+        return case
     return {"model": case.get("variant", "rich"), "segments": case["nseg"], "history": [OPS[i] for i in case["hist"]], "operation": OPS[case["op"]]}
 
 
@@ -420,5 +456,10 @@ def run(ctx):
             fix = True
             ctx.note(f"fixpoint reached at depth {d}: every longer sequence revisits a known state")
             break
-    ctx.coverage_extra.update({"states": len(seen), "transitions": transitions, "traces_validated_against_impl": transitions,
+    import itertools as _it
+
+    live = [{"family": "live", "variant": v, "views": list(vs)} for v in VARIANTS for vs in _it.product(LIVE_VIEWS, repeat=3)]
+    ctx.evaluate(live, timeout=120)
+    ctx.note(f"{len(live)} live simulators: a view read after each of 3 segments")
+    ctx.coverage_extra.update({"states": len(seen), "live_simulators": len(live), "transitions": transitions, "traces_validated_against_impl": transitions,
                                "depth": depth, "fixpoint": fix, "alphabet": len(OPS)})
